@@ -13,6 +13,7 @@
 //!   {"k":"ok","v":V} | {"k":"err","e":"LessViolated"} | {"k":"panic","m":".."} | ...
 
 pub mod probe;
+pub mod sweep;
 pub use serde;
 pub use serde_json;
 use serde_json::{json, Value};
